@@ -814,6 +814,7 @@ class Executor(object):
                     # That is not evidence of a violation -- the function is undecided until the class declaration is extended.
                     raise Unsupported('%s.%s is written but is not part of the declared state of %s (stale class declaration)'
                                       % (o.cls, target.attr, o.cls))
+            self.world.check_plain_field(self, o, target.attr)
             self.world.on_field_write(self, o, target.attr, v)
             self.world.guarded_access(self, o, target.attr, target)
             o.fields[target.attr] = v
@@ -1593,6 +1594,7 @@ class Executor(object):
         if isinstance(base, VObj):
             if attr in base.fields:
                 if self.mode == 'code':
+                    self.world.check_plain_field(self, base, attr)
                     self.world.guarded_access(self, base, attr, node)
                 return base.fields[attr]
             return self.world.object_attr(self, base, attr)
